@@ -289,6 +289,14 @@ func (h *histChecker) step(i int, op FsOp) *Failure {
 	if h.noSize {
 		exp.Size = -1
 	}
+	if h.lenientMutations && isMutation(op.Kind) && exp.Outcome == MustFail && i%4 != 0 {
+		// the statements (C06, C07) say nothing about a mutation that has no direct application
+		// on a plain tree; a cache that accepts one ends the judgeable part of the history.
+		// Three of four such operations are therefore not issued at all, so that the
+		// history goes on to the reads / Commits the statements are about.
+		h.env.Count("probe.invalid-mutation-not-issued")
+		return nil
+	}
 	var r FsResult
 	if op.Kind == "WriteFile" {
 		buf := op.Content()
